@@ -30,7 +30,7 @@ for p in sorted(glob.glob("/verif/refactors/*/r*.diff")):
         print("DOES NOT APPLY", p)
         bad += 1
         continue
-    out = run(["/verif/check"] + ALL, env=env, cwd="/verif").stdout
+    out = run([os.environ.get("PGCHECK_BIN", "/verif/check")] + ALL, env=env, cwd="/verif").stdout
     fired = [l.split()[0] for l in out.splitlines() if re.match(r"^C\d\d\.", l) and "/" in l.split()[0]]
     tb = "Traceback" in out
     tag = "/".join(p.split("/")[-2:])
